@@ -393,7 +393,9 @@ Decide(op, a) ==
 
 \* scope lists are sequences as sent: a value may be repeated ("openid openid offline_access" is legal and stored verbatim); what is
 \* granted is the SET of values
-ScopeSeqs == {<<"openid">>, <<"openid", "offline_access">>, <<"openid", "email", "offline_access">>, <<"openid", "openid", "offline_access">>}
+ScopeSeqs == {<<"openid">>, <<"openid", "offline_access">>, <<"openid", "email", "offline_access">>, <<"openid", "openid", "offline_access">>,
+              \* plain OAuth 2.0 requests: no "openid" among the scopes
+              <<"email", "offline_access">>, <<"profile">>}
 Challs == {"none", "plain:v1", "s256:v1"}
 Verifiers == {"none", "v1", "v2"}
 
